@@ -141,14 +141,25 @@ def run(chk):
     drift = []
     n_impl = n_model = 0
     try:
+        base2 = {k: {json.dumps(p, sort_keys=True) for p in v} for k, v in _programs(res_q).items()}
+        two = {k: {json.dumps(p, sort_keys=True) for p in v} for k, v in (_programs(res_2).items() if not chk.quick else [])}
         for be, kind in SYSTEMS:
             e = env if be == "sqlite" else None
-            plist = progs2.get(kind, [])
-            for i, pr in enumerate(plist):
-                # quick tier: singleton commands for every program, ordered pairs for every 5th one
-                traces[2] += drv.explore(be, kind, pr, e, max_batch=1 if (chk.quick and i % 5) else 2)
+            for i, pr in enumerate(progs2.get(kind, [])):
+                sig = json.dumps(pr, sort_keys=True)
+                if sig in base2.get(kind, ()):
+                    # quick instance: singleton commands for every program, ordered pairs for every 5th one
+                    mb = 1 if (chk.quick and i % 5) else 2
+                elif sig in two.get(kind, ()):
+                    mb = 2
+                else:
+                    # wide alphabet (thorough): singleton commands; every 3rd program on sqlite
+                    if be == "sqlite" and i % 3:
+                        continue
+                    mb = 1
+                traces[2] += drv.explore(be, kind, pr, e, max_batch=mb)
             for i, pr in enumerate(progs3.get(kind, [])):
-                if be == "sqlite" and i % 3:
+                if i % (6 if be == "sqlite" else 2):
                     continue
                 traces[3] += drv.explore(be, kind, pr, e, max_batch=1)
         n_impl = len(traces[2]) + len(traces[3])
@@ -161,39 +172,43 @@ def run(chk):
         env.close()
     chk.add(impl_explored=n_impl, model_projected=n_model, model_schedule_commands_not_enabled=len(drift))
 
-    # ---- 3. TLC judges the recorded executions
+    # ---- 3. TLC judges the recorded executions (two batches at a time)
     total = nontriv = matched = 0
     seen = set()
+
+    def judge(job):
+        np_, off, part, procs = job
+        batch = {"procs": procs, "dev": True, "traces": part}
+        verdicts, _ = tracecheck.observe(chk, "obs/Obs_C20.tla", "obs/Obs_C20.cfg", batch,
+                                         name="obs%d_%d" % (np_, off), workers=2)
+        reached, res = tracecheck.conform(chk, "stores/TraceStateStoreConc.tla", "stores/TraceStateStoreConc.cfg",
+                                          batch, name="trace%d_%d" % (np_, off), workers=3)
+        unmatched = [i for i, tr in enumerate(part, 1) if reached.get(i, 0) != len(tr["events"])]
+        reached_design = {}
+        if unmatched and not res.violated:
+            # 2.5: which variant the code follows is decided by replaying: try the design variant
+            sub = {"procs": procs, "dev": False, "traces": [part[i - 1] for i in unmatched]}
+            rd, res2 = tracecheck.conform(chk, "stores/TraceStateStoreConc.tla", "stores/TraceStateStoreConc.cfg",
+                                          sub, name="trace_design%d_%d" % (np_, off), workers=3)
+            for j, i in enumerate(unmatched, 1):
+                if not res2.violated and rd.get(j, 0) == len(part[i - 1]["events"]):
+                    reached_design[i] = True
+        return verdicts, reached, res, reached_design
+
+    jobs = []
     for np_, trs in traces.items():
         if not trs:
             continue
         errs = [t["errors"] for t in trs if t["errors"]]
         if errs:
             raise Machinery("an operation of a C20 program raised: %s" % errs[0])
-        procs = trs[0]["procs"]
-        B = 6000
-        for off in range(0, len(trs), B):
-            part = trs[off:off + B]
-            batch = {"procs": procs, "dev": True, "traces": part}
-            fut_o = pool.submit(tracecheck.observe, chk, "obs/Obs_C20.tla", "obs/Obs_C20.cfg", batch,
-                                name="obs%d_%d" % (np_, off), workers=2)
-            reached, res = tracecheck.conform(chk, "stores/TraceStateStoreConc.tla", "stores/TraceStateStoreConc.cfg",
-                                              batch, name="trace%d_%d" % (np_, off), workers=4)
-            verdicts, _ = fut_o.result()
-            unmatched = [i for i, tr in enumerate(part, 1) if reached.get(i, 0) != len(tr["events"])]
-            reached_design = {}
-            if unmatched and not res.violated:
-                # 2.5: which variant the code follows is decided by replaying: try the design variant
-                sub = {"procs": procs, "dev": False, "traces": [part[i - 1] for i in unmatched]}
-                rd, res2 = tracecheck.conform(chk, "stores/TraceStateStoreConc.tla", "stores/TraceStateStoreConc.cfg",
-                                              sub, name="trace_design%d_%d" % (np_, off), workers=4)
-                for j, i in enumerate(unmatched, 1):
-                    if not res2.violated and rd.get(j, 0) == len(part[i - 1]["events"]):
-                        reached_design[i] = True
-                if reached_design:
-                    chk.note("%d executions follow the design model (Dev_SqliteSetStateNoLock = FALSE), not the "
-                             "as-coded one" % len(reached_design))
-                    chk.add(matched_by_design_model_only=len(reached_design))
+        B = chk.pick(6000, 5000)
+        jobs += [(np_, off, trs[off:off + B], trs[0]["procs"]) for off in range(0, len(trs), B)]
+    for (np_, off, part, procs), (verdicts, reached, res, reached_design) in zip(jobs, pool.map(judge, jobs)):
+            if reached_design:
+                chk.note("%d executions follow the design model (Dev_SqliteSetStateNoLock = FALSE), not the "
+                         "as-coded one" % len(reached_design))
+                chk.add(matched_by_design_model_only=len(reached_design))
             if res.violated:
                 chk.note("conformance: model invariant %s fails on an inferred step of a real trace" % res.violated)
             for i, tr in enumerate(part, 1):
@@ -219,12 +234,17 @@ def run(chk):
                 if sig not in seen and _nontrivial(tr):
                     seen.add(sig)
                     nontriv += 1
+    for np_, trs in traces.items():
+        if not trs:
+            continue
         mid = trs[len(trs) // 2]
         chk.sample({"backend": mid["backend"], "kind": mid["kind"], "prog": mid["prog"],
                     "schedule": [e["cmds"] for e in mid["events"]], "final": mid["final"]})
     chk.add(evaluations=total, distinct_nontrivial=nontriv, traces_validated_against_impl=matched)
-    chk.exhaustive = True
+    chk.exhaustive = True      # every program of the quick instance, every command order at quiescence points
     chk.assumptions += [
+        "thorough tier adds the wide-alphabet and three-process instances: TLC checks them exhaustively, the real "
+        "stores run every 2nd-6th program of those instances (all command orders of each)",
         "CPython asyncio.Lock internals (_locked/_waiters) and the stores' private state (_state / the database "
         "row) are read for the conformance projection only; verdicts use harness-owned sequence numbers and "
         "store contents read through get_state()",
